@@ -122,6 +122,14 @@ SITES = {
     'dict-attr-unquoted-static': ('<p a=s tal:attributes="{\'a\': v}">t</p>', ('attr-whole', 'a', '"')),
     'dict-attr': ('<p tal:attributes="{\'a\': v}">t</p>', ('attr-whole', 'a', '"')),
     'comment': ('<!--' + A + '${v}' + B + '-->', 'comment'),
+    # comments that other tools read (conditional comments, server-side include directives) are comments all the same
+    'comment-conditional': ('<!--[if lt IE 9]>' + A + '${v}' + B + '<![endif]-->', 'comment'),
+    'comment-directive': ('<!--#include virtual="' + A + '${v}' + B + '" -->', 'comment'),
+    # a plain value combined with a structure value in an expression is a plain value: only the structure value was opted out
+    'text-concat-with-structure': ('<p tal:define="m structure:string:!">${\'' + A + '\' + str_of(v) + \'' + B + '\' + m}</p>', 'text'),
+    'text-structure-concat-first': ('<p tal:define="m structure:string:!">${m + \'' + A + '\' + str_of(v) + \'' + B + '\'}</p>', 'text'),
+    'text-structure-format': ('<p tal:define="m structure:string:[%s]">${m % (\'' + A + '\' + str_of(v) + \'' + B + '\')}</p>', 'text'),
+    'attr-structure-join': ('<p tal:define="m structure:string:!" a="${m.join([\'' + A + '\' + str_of(v) + \'' + B + '\', \'z\'])}">t</p>', ('attr', 'a', '"')),
     # the text of script and style elements is element text like any other
     'script-text': ('<script>var a = 1; ' + A + '${v}' + B + ' // c</script>', 'text'),
     'style-text': ('<style type="text/css">p { content: ' + A + '${v}' + B + ' }</style>', 'text'),
@@ -415,7 +423,8 @@ def run(ctx):
     for i, (s, w, hn, hv) in enumerate(work):
         if i % ctx.nshards != ctx.shard:
             continue
-        if (s.startswith('tal-attr') and s != 'tal-attr-direct' and s != 'tal-attr-direct-sq' or s.endswith('-translated') or s == 'content-catalogue') \
+        if (s.startswith('tal-attr') and s != 'tal-attr-direct' and s != 'tal-attr-direct-sq' or s.endswith('-translated') or s == 'content-catalogue'
+                or 'structure' in s) \
                 and isinstance(hv, Message):
             continue        # str_of() already stringifies
         check_site(ctx, s, w, hn, hv)
@@ -437,6 +446,8 @@ def run(ctx):
     k = 0
     vals = dict(HOSTILE)
     for s in sorted(SITES):
+        if 'structure' in s:
+            continue        # (these define a variable with tal:define, which the preceding load as TEXT does not execute)
         for hn in ('all', 'attr-break', 'attr-break-sq', 'tag', 'entity-amp'):
             k += 1
             if k % ctx.nshards == ctx.shard:
